@@ -224,6 +224,32 @@ def run(ck, F):
     if not ntree:
         ck.fail(R6, 'rb_tree::container', 'no instantiation of rb_tree::container has a user-provided destructor: the nodes of a table are never released', loc=places_loc(F))
 
+    # nothing that outlives a Lexicon refers to storage the Lexicon owns
+    R9 = ck.rule('C19.no-static-alias-of-owned-storage', 'no object of static storage duration (namespace scope, static member, '
+                 'function-local static) is bound at run time to storage owned by a Lexicon: each is constant-initialised, and no '
+                 'library function assigns a pointer to one -- otherwise the reference survives the Lexicon it points into and the '
+                 'next Lexicon reads released storage through it', floor=15)
+    statics = {}
+    for g in sorted(F.globals, key=lambda g: g['q'] + g['loc']):
+        if g.get('unit') == 'probe.cxx' and not g['loc'].startswith(('include/', 'src/')):
+            continue
+        statics[g['q']] = g
+        holds_address = g['t'].rstrip().endswith(('*', '&')) or '*' in g['t'] or not (g['constexpr'] or g['const'])
+        dyn = g.get('init') is not None and not g.get('constant_init', False)
+        ck.check(R9, g['q'], not dyn, f'{g["storage"]} variable {g["q"]} of type {g["t"]} is initialised at run time'
+                 + (f' inside {g["in_function"]}' if g.get('in_function') else '') + ': whatever it is bound to (a node, a string, a table of '
+                 'the Lexicon in use at that moment) is still referred to after that Lexicon is destroyed', loc=g['loc'])
+    for f in sorted(F.fn.values(), key=lambda f: f['id']):
+        if not lib_fn(f):
+            continue
+        for n in walk(f.get('body')):
+            if n.get('k') == 'binop' and n.get('op') == '=':
+                lhs = strip_casts(n['l'])
+                if lhs.get('k') == 'ref' and lhs.get('kind') == 'global' and lhs.get('repo'):
+                    ck.fail(R9, f'{lhs.get("q")} <- {contracts.short(contracts.fn_qname(f["id"]))}',
+                            f'{f["id"]} assigns to the static variable {lhs.get("q")} (line {n.get("ln")}): the value stored at run time outlives the '
+                            'Lexicon it was taken from', loc=f['loc'], fn=f['id'])
+
     # live use writes inside live objects: the only raw storage the library fills by hand is the arena's
     R8 = ck.rule('C19.arena-writes-in-bounds', 'a function that fills a header obtained from arena::allocate(A) writes the length field '
                  'and data[0 .. A) only (affine comparison, valid for every length): no write lands in the next header or past the '
